@@ -47,6 +47,8 @@ pub fn run(cfg: &Config) -> i32 {
 		add(&mut total, pf::fam_generated(cfg, flags, cfg.budget(300_000, 10_000_000), true));
 		add(&mut total, pf::fam_surrogates(cfg, flags, if thorough { 5 } else { 3 }));
 		add(&mut total, pf::fam_valid_token_docs(cfg, flags, if thorough { 8 } else { 7 }));
+		add(&mut total, pf::fam_unicode_sweep(cfg, flags));
+		add(&mut total, pf::fam_block_boundaries(cfg, flags));
 		deep(cfg, &mut total, thorough);
 	}
 
